@@ -8,7 +8,7 @@ import numpy as np
 
 from .. import gen1
 from ..core import Rng, case_hash, rs
-from . import c05_bins, coll_parts
+from . import c05_bins, c05_share, coll_parts
 from .base1 import Hist1Prop
 from .c04 import values as grid_values
 
@@ -668,6 +668,13 @@ class C05(Hist1Prop):
             "equal bins / not adaptive, through a + b, b + a, sum() in both orders and += on copies: an accepted addition "
             "holds, bin by bin and in total + missed, everything both operands held (a refusal is fine, lost weight is not), "
             "equal bins add their missed slots, operands unchanged, both orders agree. "
+            "One case in sixteen each (c05_share.py, oracle only): stream:shared_memory -- operands built FROM another live "
+            "histogram's arrays (constructor, views, from_xarray(to_xarray()), frequencies and errors2 one array), a + b / sum / "
+            "in-place += on the live objects, every live histogram snapshotted around every call: nothing but the target of += "
+            "changes and the result holds the pointwise sums of what the operands reported before; stream:near_equal_widths -- "
+            "adaptive fixed-width operands (1-D / one axis of 2-d) of different ranges and bin counts whose widths differ by a "
+            "relative 0 .. 1e-3, far from / near the origin: refused, or else every value of both data sets sits in the bin of the "
+            "result that contains it (exact), no weight lost, a + b == b + a. "
             "non-trivial = both operands non-empty; distinct = hash of the op list")
     FIELDS = {"bins", "freq", "err2", "under", "over", "total", "dtype", "keep"}
 
@@ -680,6 +687,8 @@ class C05(Hist1Prop):
 
     # ---- HistogramCollection cases (coll_parts): dispatched on case["sub"] == "coll"
     def run_impl(self, case):
+        if case.get("sub") in ("share", "nearw"):
+            return c05_share.run_impl(case)
         if case.get("sub") == "binsvs":
             return c05_bins.run_impl(case)
         if case.get("sub") == "coll":
@@ -689,6 +698,8 @@ class C05(Hist1Prop):
         return super().run_impl(case)
 
     def model_case(self, case, io):
+        if case.get("sub") in ("share", "nearw"):
+            return None         # oracle only: the op language has neither shared arrays nor binnings of nearly equal width
         if case.get("sub") == "binsvs":
             return c05_bins.model_case(case, io)
         if case.get("sub") == "coll":
@@ -729,6 +740,10 @@ class C05(Hist1Prop):
             yield from seq_neighbours(case)
 
     def gen_case(self, rng, k, tier):
+        if k % 16 == 7:
+            return c05_share.share_gen(rng)     # stream:shared_memory
+        if k % 16 == 15:
+            return c05_share.nearw_gen(rng)     # stream:near_equal_widths
         if k % 8 == 3:
             return c05_bins.gen(rng)       # stream:bins_vs_params
         if k % 8 == 1:
@@ -834,11 +849,16 @@ class C05(Hist1Prop):
         return t
 
     def neighbours(self, case):
+        if case.get("sub") in ("share", "nearw"):
+            return list(c05_share.neighbours(case))
         if case.get("sub") == "binsvs":
             return list(c05_bins.neighbours(case))
         return super().neighbours(case)
 
     def shrink_candidates(self, case):
+        if case.get("sub") in ("share", "nearw"):
+            yield from c05_share.shrink_candidates(case)
+            return
         if case.get("sub") == "binsvs":
             yield from c05_bins.shrink_candidates(case)
             return
@@ -862,6 +882,8 @@ class C05(Hist1Prop):
                 yield self.build(s2, case.get("tags", []))
 
     def oracle(self, case, io):
+        if case.get("sub") in ("share", "nearw"):
+            return c05_share.oracle(case, io)
         if case.get("sub") == "binsvs":
             return c05_bins.oracle(case, io)
         if case.get("sub") == "coll":
@@ -937,6 +959,8 @@ class C05(Hist1Prop):
         return fails[:6]
 
     def nontrivial(self, case, io):
+        if case.get("sub") in ("share", "nearw"):
+            return c05_share.nontrivial(case, io)
         if case.get("sub") == "binsvs":
             return c05_bins.nontrivial(case, io)
         if case.get("sub") == "coll":
